@@ -14,10 +14,46 @@ Theorem C09_conn_window : forall ls, P_conn ls (obs_of ls).
 Proof. exact final_conn. Qed.
 Print Assumptions C09_conn_window.
 
-(* nor on a stream (SETTINGS frames carry at most one INITIAL_WINDOW_SIZE) *)
-Theorem C09_stream_window : forall ls, single_init ls = true -> P_stream ls (obs_of ls).
+(* nor on a stream: whenever a label delivers DATA on s, the total delivered on s is within what
+   the receiver has granted as of that label - for every script, SETTINGS frames with repeated
+   INITIAL_WINDOW_SIZE entries included (the value is applied once per frame: fixes/C09-2) *)
+Theorem C09_stream_window : forall ls, P_stream ls (obs_of ls).
 Proof. exact final_stream. Qed.
 Print Assumptions C09_stream_window.
+
+(* the defect repaired by fixes/C09-2, as a regression example: stream window 0, 30 octets queued;
+   [IWS=1000; 0x10=1; IWS=10] releases nothing, then [IWS=10; IWS=1000] releases everything *)
+Example C09_repeated_initial_window_example :
+  rfc_valid w_k2s = true /\ single_init w_k2s = false /\ c09_ok w_k2s (obs_of w_k2s) = true
+  /\ sents Sv 1 (concat (firstn 4 (obs_of w_k2s))) = 0%Z /\ sents Sv 1 (concat (obs_of w_k2s)) = 30%Z.
+Proof. exact repeated_initial_window_example. Qed.
+
+(* a SETTINGS frame is an ordered list: its effect on the relay is the sequential fold over its
+   entries, i.e. the LAST occurrence of each identifier (RFC 7540 6.5.3) ... *)
+Theorem C09_settings_frame_last_occurrence_wins : forall f y kv f' acts,
+  front f y (FSettings kv) = Some (f', acts) ->
+  f_maxf f' y = match last_occ 5 kv with Some v => v | None => f_maxf f y end
+  /\ f_tab f' y = match last_occ 1 kv with Some v => v | None => f_tab f y end
+  /\ f_maxf f' (other y) = f_maxf f (other y) /\ f_tab f' (other y) = f_tab f (other y)
+  /\ forall m, fold_left a_init1 (acts_to y acts) (Z.of_N m) =
+               Z.of_N (match last_occ 4 kv with Some v => v | None => m end).
+Proof. exact settings_frame_effect. Qed.
+Print Assumptions C09_settings_frame_last_occurrence_wins.
+
+(* ... and after any script the base of the stream windows, the max frame size and the HPACK table
+   size the relay uses toward x are the folds of everything x announced, in order *)
+Theorem C09_settings_state_is_sequential_fold : forall ls x,
+  init (getf (sb (final ls)) x) = init_of x (firstn (length (obs_of ls)) ls)
+  /\ f_maxf (sf (final ls)) x = maxf_of x (firstn (length (obs_of ls)) ls)
+  /\ f_tab (sf (final ls)) x = tabsz_of x (firstn (length (obs_of ls)) ls).
+Proof. exact settings_state_is_fold. Qed.
+Print Assumptions C09_settings_state_is_sequential_fold.
+
+Example C09_settings_list_example :
+  last_occ 4 [(4, 1000); (16, 1); (4, 10); (5, 32768); (5, 16384)]%N = Some 10%N
+  /\ last_occ 5 [(4, 1000); (16, 1); (4, 10); (5, 32768); (5, 16384)]%N = Some 16384%N
+  /\ last_occ 1 [(4, 1000); (16, 1); (4, 10)]%N = None.
+Proof. vm_compute. repeat split; reflexivity. Qed.
 
 (* credit returned = flow-controlled length (payload + pad length octet + padding)
    of every DATA frame accepted, on the stream and on the connection, after every label *)
@@ -94,7 +130,7 @@ Theorem C09_chunk_oracle_is_the_property : forall maxf hp ip c t,
 Proof. exact chunks_fit_iff. Qed.
 
 Example C09_example :
-  rfc_valid w_ex = true /\ single_init w_ex = true /\ length (obs_of w_ex) = length w_ex
+  rfc_valid w_ex = true /\ length (obs_of w_ex) = length w_ex
   /\ c09_ok w_ex (obs_of w_ex) = true /\ c08_ok w_ex (obs_of w_ex) = true
   /\ sents Sv 1 (concat (obs_of w_ex)) = 3 /\ creds Cl 1 (concat (obs_of w_ex)) = 12.
 Proof. exact example_ok. Qed.
